@@ -17,7 +17,10 @@ RULE = ("API table (~150 entry points with a variable-length or pointer argument
         "must be refused (misuse handler / error) before any access; AES-256-GCM (which wipes the output before returning -1) on a "
         "64 GiB virtual buffer aliased onto 8 MiB (native build). builds: clang ASan+UBSan (alignment group excluded, see DESIGN) on "
         "native x {all, -avx2, none} and the generic build. Oracle: no sanitizer report, no fault."
-        " Default random source without getrandom(): every script of <= 3 short / interrupted read() answers x 10 request sizes on the /dev/urandom fallback (ASan build, canaries).")
+        " Default random source without getrandom(): every script of <= 3 short / interrupted read() answers x 10 request sizes on the /dev/urandom fallback (ASan build, canaries)."
+        " randombytes_internal_implementation (installed before sodium_init, one forked ASan child per case): every operation sequence of depth <= 3 "
+        "(thorough 4) over {random, uniform(10), uniform(2^31+1), buf(k) k=0..9,16,17,64,600, stir} followed by 700 random() calls (> 5 pool refills): "
+        "exit 0, no signal, no hang, never the same value 64 times in a row.")
 
 META = {
     "engine": "E-shape", "level": "exploration",
@@ -50,9 +53,14 @@ def main(tier):
     build.link_harness("asan", exe2, [os.path.join(common.VERIF, "harness", "c12_sysrandom.c")], wraps=("getrandom", "read"))
     sysr = common.run([exe2], env={"VERIF_TIER": tier}, label="c12-sysrandom-fallback", timeout=1800)
 
+    exe3 = os.path.join(build.build("asan"), "h_c12internal")
+    build.link_harness("asan", exe3, [os.path.join(common.VERIF, "harness", "c12_internal.c")])
+    intr = common.run([exe3], env={"VERIF_TIER": tier}, label="c12-internal-random-sequences", timeout=3600)
+
     def extra(r):
-        r.merge(lim); r.merge(sysr)
-        return {"size_limit_probes": lim.stat("evaluations"), "sysrandom_fallback_read_scripts": sysr.stat("evaluations")}
+        r.merge(lim); r.merge(sysr); r.merge(intr)
+        return {"size_limit_probes": lim.stat("evaluations"), "sysrandom_fallback_read_scripts": sysr.stat("evaluations"),
+                "internal_random_op_sequences": intr.stat("evaluations")}
     common.simple_check("C12", tier, "exploration", ["c12.c"], ["asan", "asan_generic"], RULE,
                         ["sanitizer coverage limits as stated in the level note", "contents from the pattern alphabet",
                          "decrypt-direction entry points authenticate (read) their whole input before refusing: their over-limit probes only judge an outright success"],
